@@ -9,9 +9,34 @@ documentation specifies for 'cascade' and 'cascade update'."
 The theorems are about `Gsu.Model.LDb` — the definitions the driver `drv_c08` executes and the
 correspondence suite compares with `db19/tran.go` — with DESIGN §6 findings 3 and 19 repaired
 (the model blocks a delete unless the key cascades deletes; the update cascade skips the empty
-key). Helper lemmas: `Gsu/Proofs/LDb.lean`.
+key). Helper lemmas: `Gsu/Proofs/LDb.lean` (deletes, updates that keep referenced keys),
+`LDb2.lean`/`LDb3.lean`/`LDb4.lean` (updates that change a referenced key: the shape of the
+cascade stack, its invariant, histories), `LDb5.lean`/`LDb6.lean` (what a cascade removes /
+rewrites).
+
+What is proved about `fk_inv` ("every non-empty foreign key value of a live row has a live
+target", over every history):
+* `fk_inv_partial`: every schema, every history whose updates leave referenced keys unchanged;
+* `fk_inv_rekey_partial`: ALSO updates that change a referenced key — refused under `block`,
+  cascaded to any depth under `cascade update` — for schemas satisfying `SchOk` and updates
+  satisfying `UpdOk2`.  The excluded cases are exactly where the statement is false of the code:
+  - KF-C08-1 (an update changes a referenced key and, at the same time, points a foreign key of
+    the row at a row of the same table, e.g. its own old key): `UpdOk2`, witness `fk_inv_counter`;
+    the same through two tables (`fk_inv_cycle_counter`) — the changed foreign key value must
+    point to an EARLIER table;
+  - NEW, KF-C08-4 (a cascade rewrites columns that a second foreign key of the row shares; that
+    key is not re-checked): `SchOk.sep`, witness `fk_inv_overlap_counter`;
+  - `SchOk.ord` (a cascading foreign key points to an earlier table or is a self reference from
+    an index that is not itself referenced) gives "earlier table" in `UpdOk2` its meaning: with
+    cascading foreign keys in a cycle of tables the row a new foreign key value points to can
+    again be re-keyed by the cascade of the same update (KF-C08-1 once more, found by random
+    search on the model); inside `ord` no violation exists (proved);
+  - KF-C08-2 (raw single-column key: range instead of equality) and KF-C08-3 (a row made
+    self-referencing and re-keyed in ONE transaction) are not visible in the model: it compares
+    keys as field tuples (C12) and refuses the second update (`pendingUpd`, what the code does
+    across transactions); the suite keeps both as fixed probes.
 -/
-import Gsu.Proofs.LDb
+import Gsu.Proofs.LDb6
 import Gsu.Gen.FkModes
 namespace Gsu.Props.C08
 open Gsu.Proto Gsu.LDb
@@ -25,9 +50,9 @@ keys) and every history in which each update leaves the keys that some foreign k
 unchanged (`OpOk`: updates of source rows, of non-key columns, of unreferenced keys). Deletes
 with their recursive cascades are covered in full.
 
-Missing: updates that change a referenced key (blocked, or cascaded by `runUpd`). They are tied
-to the code by the correspondence only; that the statement is in fact false there for the
-current code is `fk_inv_counter`. -/
+Updates that change a referenced key (blocked, or cascaded by `runUpd`) are covered by
+`fk_inv_rekey_partial` below, for the schemas `SchOk`; that the statement is in fact false for
+some of them for the current code is `fk_inv_counter`. -/
 theorem fk_inv_partial (s : St) (ops : List Op) (hops : ∀ op ∈ ops, OpOk s.env.sch op)
     (h : FkOk s.env.sch s.committed ∧ FkOk s.env.sch s.w.db) :
     FkOk (run s ops).env.sch (run s ops).committed ∧ FkOk (run s ops).env.sch (run s ops).w.db :=
@@ -52,6 +77,61 @@ example : OpOk (selfSchema 3) (.upd 0 [[1], []] [[1], [1]]) := by
     simp [idxsOf, selfSchema] at this
     subst this; rfl
   · exfalso; apply hne; decide
+
+/-- An accepted update that changes referenced keys keeps every foreign key satisfied: under
+`block` it is only accepted when no row references the old key, under `cascade update` the
+referencing rows are rewritten, recursively (a rewritten row may itself be referenced).
+Hypotheses: the schema conditions `SchOk` (targets are keys; the columns of a cascading foreign
+key are distinct columns of the table and not shared with another foreign key source or target
+index of the table; cascading foreign keys point to earlier tables or are self references from
+an unreferenced index), rows as wide as their table, and `UpdOk2`: a foreign key value that the
+update itself changes to a non-empty value points to an earlier table (KF-C08-1 excluded). -/
+theorem update_cascade_inv (env : Env) (w w' : W) (t : Nat) (old new : Row) (hsch : SchOk env.sch)
+    (h : opUpdate env w t old new = .ok w') (hlen : new.length = ncols env.sch t)
+    (hu : UpdOk2 env.sch t old new) (hok : FkOk env.sch w.db) (hl : LenOk env.sch w.db) :
+    FkOk env.sch w'.db ∧ LenOk env.sch w'.db :=
+  opUpdate_fkOk2 hsch h hlen hu hok hl
+
+/-- `fk_inv` for histories with updates that change referenced keys.  For every schema satisfying
+`SchOk` and EVERY history of begin / output / delete / update / commit / abort / trigger switches
+whose rows are as wide as their tables and whose updates either leave referenced keys unchanged
+or satisfy `UpdOk2` (`OpOk2`), the committed state and the running transaction's view satisfy
+`FkOk`.  Still partial: `SchOk`, `UpdOk2` exclude KF-C08-1 and KF-C08-4 (see the header), where
+the statement is false — `fk_inv_counter`, `fk_inv_cycle_counter`, `fk_inv_overlap_counter`. -/
+theorem fk_inv_rekey_partial (s : St) (ops : List Op) (hsch : SchOk s.env.sch)
+    (hops : ∀ op ∈ ops, OpOk2 s.env.sch op)
+    (h : (FkOk s.env.sch s.committed ∧ FkOk s.env.sch s.w.db) ∧
+      (LenOk s.env.sch s.committed ∧ LenOk s.env.sch s.w.db)) :
+    (FkOk (run s ops).env.sch (run s ops).committed ∧ FkOk (run s ops).env.sch (run s ops).w.db) ∧
+    (LenOk (run s ops).env.sch (run s ops).committed ∧ LenOk (run s ops).env.sch (run s ops).w.db) :=
+  run_inv2 ops s hsch hops h
+
+/-- a chain: t0 key(c0); t1 key(c0) in t0 cascade update; t2 key(c0) index(c1) in t1(c0) cascade update -/
+def chainSchema : Schema :=
+  [⟨2, [⟨0, [0], none⟩]⟩, ⟨2, [⟨0, [0], some ⟨0, 0, 1⟩⟩]⟩, ⟨2, [⟨0, [0], none⟩, ⟨1, [1], some ⟨1, 0, 1⟩⟩]⟩]
+def chainDb : Db := fun t =>
+  if t = 0 then [[[97], []]] else if t = 1 then [[[97], [120]]]
+  else if t = 2 then [[[107], [97]], [[108], [97]]] else []
+
+-- non-vacuity: the hypotheses hold for the self-referencing schema (every mode) and the chain …
+example : SchOk (selfSchema 0) ∧ SchOk (selfSchema 1) ∧ SchOk (selfSchema 3) ∧ SchOk chainSchema :=
+  ⟨schOkB_spec (by decide), schOkB_spec (by decide), schOkB_spec (by decide), schOkB_spec (by decide)⟩
+
+-- … for an update of the key of a self-referencing table (the foreign key column stays) …
+example : OpOk2 (selfSchema 1) (.upd 0 [[97], []] [[98], []]) := by
+  refine ⟨rfl, Or.inr ?_⟩
+  intro j fk hfk
+  rcases j with _ | _ | j
+  · simp [fkOf, idxsOf, selfSchema] at hfk
+  · left; rfl
+  · simp [fkOf, idxsOf, selfSchema] at hfk
+
+-- … such an update is accepted and cascades: in the chain the change of t0's key is carried
+-- through t1's key into t2's foreign key column (two levels of recursion)
+example : (match opUpdate ⟨chainSchema, fun _ => 0, fun _ => 0⟩ ⟨chainDb, []⟩ 0 [[97], []] [[98], []] with
+     | .ok w' => (w'.db 0 == [[[98], []]]) && (w'.db 1 == [[[98], [120]]]) &&
+         (w'.db 2 == [[[107], [98]], [[108], [98]]])
+     | .err _ _ => false) = true := by decide
 
 /-- Deleting a row with all its cascades (any depth, any schema, self-references included) keeps
 every foreign key satisfied. -/
@@ -88,6 +168,47 @@ theorem cascade_spec_update_blocked (env : Env) (w : W) (t : Nat) (old new : Row
     ∃ e, opUpdate env w t old new = .err e true :=
   opUpdate_blocked hrow hix hf hkey hchg hne (by rw [hm]; decide) hr
 
+/-- `cascade_spec`, positive half for deletes ("removing a target row will remove matching source
+rows"), every schema: an accepted delete of `row` (1) only removes rows, (2) keeps every row that
+does not reference the deleted row — directly or through other removed rows — by foreign keys
+that cascade deletes (`DelReach`), (3) leaves no row that references a key of a reached row, so
+(4) every reached row other than `row` is gone, and (5) so is `row` (if it was there once). -/
+theorem cascade_spec_delete_removes (env : Env) (w w' : W) (t : Nat) (row : Row)
+    (h : opDelete env w t row = .ok w') :
+    (∀ s, (w'.db s).Sublist (w.db s)) ∧
+    (∀ s x, x ∈ w.db s → ¬ DelReach env.sch w.db t row s x → x ∈ w'.db s) ∧
+    (∀ s x, DelReach env.sch w.db t row s x → NoRefs env.sch w'.db s x) ∧
+    (∀ s x, DelReach env.sch w.db t row s x → (s ≠ t ∨ x ≠ row) → x ∉ w'.db s) ∧
+    ((w.db t).count row ≤ 1 → row ∉ w'.db t) :=
+  opDelete_spec h
+
+-- non-vacuity: under `cascade` the delete of [a] takes the referencing rows [b,a] and [c,b] with it
+example : (match opDelete (selfEnv 3) ⟨selfDb [[[97], []], [[98], [97]], [[99], [98]], [[100], []]], []⟩ 0 [[97], []] with
+     | .ok w' => w'.db 0 == [[[100], []]]
+     | .err _ _ => false) = true := by decide
+
+/-- `cascade_spec`, positive half for updates ("updating a target row will update matching source
+rows"), for the schemas and updates of `update_cascade_inv`: there is a list `log` of row changes
+`(table, old row, new row)` such that the user's change is in it; every other entry rewrites a
+row that referenced the old value of a key changed by another entry, through a foreign key that
+cascades updates — its foreign key columns get the key of that entry's new row, every other
+column is kept (`Rewrite`, `substFk`); the rows before and after differ exactly by these changes
+(nothing else appears, disappears or changes; row counts are the same); and afterwards no row
+references the old value of a key the user's change replaced. -/
+theorem cascade_spec_update_rewrites_partial (env : Env) (w w' : W) (t : Nat) (old new : Row)
+    (hsch : SchOk env.sch) (h : opUpdate env w t old new = .ok w')
+    (hlen : new.length = ncols env.sch t) (hu : UpdOk2 env.sch t old new)
+    (hok : FkOk env.sch w.db) (hl : LenOk env.sch w.db) :
+    ∃ log : List (Nat × Row × Row),
+      (new ≠ old → (t, old, new) ∈ log) ∧
+      (∀ e ∈ log, e = (t, old, new) ∨
+        Rewrite env.sch (fun T o n => (T, o, n) ∈ log) e.1 e.2.1 e.2.2) ∧
+      (∀ s x, x ∈ w.db s → x ∈ w'.db s ∨ ∃ x', (s, x, x') ∈ log) ∧
+      (∀ s x, x ∈ w'.db s → x ∈ w.db s ∨ ∃ r, (s, r, x) ∈ log) ∧
+      (∀ s, (w'.db s).length = (w.db s).length) ∧
+      NoRefsChanged env.sch w'.db t old new :=
+  opUpdate_spec hsch h hlen hu hok hl
+
 /-- `fk_inv` is FALSE for updates in a self-referencing table (new finding, not in DESIGN §6): the
 update `[a, ""] → [b, a]` changes the key and makes the row reference its own OLD key; the
 target check (`fkeyOutputBlock`) runs against the state before the update, finds the row itself,
@@ -96,6 +217,42 @@ model here (correspondence) and the direct oracle reports it (`dangling-fk:upd-s
 theorem fk_inv_counter :
     (match opUpdate (selfEnv 0) ⟨selfDb [[[97], []]], []⟩ 0 [[97], []] [[98], [97]] with
      | .ok w' => (w'.db 0 == [[[98], [97]]]) && !hasKey (w'.db 0) [0] [[97]]
+     | .err _ _ => false) = true := by
+  decide
+
+/-- KF-C08-1 through two tables (`UpdOk2` asks for an EARLIER table, not only "another table"):
+t0 (c0,c1) key(c0) index(c1) in t1(c0); t1 (c0) key(c0) in t0(c0) cascade update.  The update
+`[a, ""] → [b, a]` of t0 is accepted (t1 has the row `a`), its cascade re-keys that row of t1 to
+`b`, and t0's new row keeps `c1 = a` without target.  The schema satisfies `SchOk`.  Confirmed
+on the implementation (scratch test, see findings/C08.md). -/
+def cycleSchema : Schema :=
+  [⟨2, [⟨0, [0], none⟩, ⟨1, [1], some ⟨1, 0, 0⟩⟩]⟩, ⟨2, [⟨0, [0], some ⟨0, 0, 1⟩⟩]⟩]
+def cycleDb : Db := fun t => if t = 0 then [[[97], []]] else if t = 1 then [[[97], []]] else []
+
+theorem fk_inv_cycle_counter :
+    schOkB cycleSchema = true ∧
+    (match opUpdate ⟨cycleSchema, fun _ => 0, fun _ => 0⟩ ⟨cycleDb, []⟩ 0 [[97], []] [[98], [97]] with
+     | .ok w' => (w'.db 0 == [[[98], [97]]]) && (w'.db 1 == [[[98], []]]) && !hasKey (w'.db 1) [0] [[97]]
+     | .err _ _ => false) = true := by
+  decide
+
+/-- NEW finding KF-C08-4 (`SchOk.sep` is needed): a cascade rewrites columns shared with a second
+foreign key of the row and does not re-check it (`update(…, block = false)` skips
+`fkeyOutputBlock`).  t0 (c0,c1) key(c0); t1 (c0,c1) key(c0,c1); t2 (c0,c1,c2) key(c0)
+index(c1) in t0(c0) cascade update, index(c1,c2) in t1(c0,c1).  Rows t0 `[a,""]`, t1 `[a,x]`,
+t2 `[k,a,x]`; `update t0 [a,""] → [b,""]` rewrites t2's row to `[k,b,x]`, whose second foreign
+key `(b,x)` has no target in t1.  Confirmed on the implementation (findings/C08.md). -/
+def overlapSchema : Schema :=
+  [⟨2, [⟨0, [0], none⟩]⟩, ⟨2, [⟨0, [0, 1], none⟩]⟩,
+   ⟨3, [⟨0, [0], none⟩, ⟨1, [1], some ⟨0, 0, 1⟩⟩, ⟨1, [1, 2], some ⟨1, 0, 0⟩⟩]⟩]
+def overlapDb : Db := fun t =>
+  if t = 0 then [[[97], []]] else if t = 1 then [[[97], [120]]]
+  else if t = 2 then [[[107], [97], [120]]] else []
+
+theorem fk_inv_overlap_counter :
+    (match opUpdate ⟨overlapSchema, fun _ => 0, fun _ => 0⟩ ⟨overlapDb, []⟩ 0 [[97], []] [[98], []] with
+     | .ok w' => (w'.db 2 == [[[107], [98], [120]]]) && (w'.db 1 == [[[97], [120]]]) &&
+         !hasKey (w'.db 1) [0, 1] [[98], [120]]
      | .err _ _ => false) = true := by
   decide
 
